@@ -95,6 +95,11 @@ def ob_provenance(ctx):
         ents.append(cls(rec, st.Seq(O[i] if i < m else O[m]), st.Seq(O[i + 1] if i < m else O[0]), module_spans(*sp)))
         geo.append(frag_geometry(role, sp, ni))
     vec, mods = ents[m], ents[:m]
+    if P.get("labels"):
+        # the requested identifier and name are arbitrary strings: one path per shape of label (long, with blanks,
+        # at and around the widths of a GenBank LOCUS line, empty, non-ASCII)
+        which = ctx.mk.pick("label", len(LABELS))
+        P = dict(P, pid=LABELS[which][0], pname=LABELS[which][1])
     prod = vec.assemble(*mods, id=P["pid"], name=P["pname"])
     ctx.observe("prod", prod)
     ctx.require(isinstance(prod, st.record.CircularRecord), "product-type")
@@ -193,6 +198,11 @@ def ob_unused_named(ctx):
     return True
 
 
+LABELS = [("p", "n"), ("a-rather-long-accession.number.12", "a product name that is far longer than a locus line"),
+          ("X" * 16, "Y" * 16), ("X" * 17, "Y" * 17), ("id with blanks", "name with blanks"), ("Z" * 27, "W" * 25),
+          ("Z" * 28, "W" * 28), ("Q" * 29, "R" * 64), ("", ""), ("pl\u00e4smid", "n\u00e4me"), ("assembly", "assembly")]
+
+
 def obligations(tier, seed):
     obs = []
     idsets = [["mod-A", "mod_B", "the.vector"], ["m0", "m1", "v"]]
@@ -203,6 +213,10 @@ def obligations(tier, seed):
                 obs.append(Ob("provenance m=%d symbolic spans in element %d n=%d" % (m, sym, n), ob_provenance,
                               dict(m=m, sym=sym, n=n, ids=ids, pid="prod.1", pname="my product", level2=False),
                               samples=5, cost=n * n * 30))
+    for m in (1, 2):
+        obs.append(Ob("requested id and name of every shape m=%d" % m, ob_provenance,
+                      dict(m=m, sym=-1, n=9, ids=idsets[0][:m] + [idsets[0][2]], pid="?", pname="?", level2=False, labels=True),
+                      samples=len(LABELS), cost=300, group="labels"))
     for spare_first in (False, True):
         obs.append(Ob("superfluous module still named (spare %s)" % ("first" if spare_first else "last"), ob_unused_named,
                       dict(spare_first=spare_first), samples=4, cost=100))
